@@ -31,7 +31,11 @@ type ReaderScript struct {
 	ZeroReads   int   `json:"zero_reads"`    // zero-length reads inserted before every chunk
 	EOFWithData bool  `json:"eof_with_data"` // the last chunk is returned together with io.EOF
 	FailAt      int   `json:"fail_at"`       // byte offset at which Read starts failing with a non-EOF error (-1 = never)
+	ErrKind     int   `json:"err_kind"`      // which non-EOF error the source fails with (index into readErrors)
 }
+
+// the non-EOF errors a source may fail with
+var readErrors = []error{errInjectedRead, io.ErrUnexpectedEOF, io.ErrClosedPipe, os.ErrDeadlineExceeded, io.ErrShortBuffer}
 
 type scriptReader struct {
 	data   []byte
@@ -74,7 +78,7 @@ func (r *scriptReader) Read(p []byte) (int, error) {
 	}
 	if r.pos >= limit {
 		if failing {
-			return 0, errInjectedRead
+			return 0, readErrors[r.s.ErrKind%len(readErrors)]
 		}
 		return 0, io.EOF
 	}
@@ -243,6 +247,8 @@ func chunkings(n int, rng *rand.Rand, exhaustive bool) []ReaderScript {
 	return out
 }
 
+var rawInputs = []string{"a\rb", "x\r\ny\r", "plain text only", "tab\there  and   spaces", "nul\x00byte", "caf\xc3\xa9 \xff\xfe", "\r", "1 < 2", "a\r<b>c\r\n</b>", "AT&T", "q\"uote'"}
+
 // checkAgreement: C15 on one (policy, input).
 func checkAgreement(res *RunResult, recipe Recipe, model *AP, real *bm.Policy, input []byte, rng *rand.Rand, exhaustive bool, seen map[string]bool) {
 	ref := RunIO(real, "Sanitize", input, ReaderScript{FailAt: -1}, WriterScript{})
@@ -324,9 +330,9 @@ func checkWriteFaults(res *RunResult, recipe Recipe, model *AP, real *bm.Policy,
 // checkReadFaults: C16 read clause: the source starts failing at each offset.
 func checkReadFaults(res *RunResult, recipe Recipe, model *AP, real *bm.Policy, input []byte, offsets []int, seen map[string]bool) {
 	x := NewExec(recipe, model, real, input, nil, nil)
-	for _, off := range offsets {
+	for i, off := range offsets {
 		for _, one := range []bool{false, true} {
-			rs := ReaderScript{FailAt: off, OneByte: one}
+			rs := ReaderScript{FailAt: off, OneByte: one, ErrKind: i}
 			r := RunIO(real, "SanitizeReaderToWriter", input, rs, WriterScript{Kind: "string"})
 			res.Execs++
 			if r.Err == nil {
@@ -441,6 +447,14 @@ func cmdReplayIO(args []string) int {
 			}
 			if len(res.Samples) < 3 && c.Env.FailAt > 0 {
 				res.Samples = append(res.Samples, map[string]interface{}{"input": string(input), "env": c.Env, "predicted_status": c.Status, "real_error": fmt.Sprint(r.Err), "accepted": string(r.Out)})
+			}
+			// byte-level inputs no token sequence can express (raw carriage returns, NUL, invalid UTF-8), once per policy
+			if rk := fmt.Sprintf("raw|%d", c.Rid); !agreed[rk] && want["C15"] {
+				agreed[rk] = true
+				for _, raw := range rawInputs {
+					res.Applicable["C15"]++
+					checkAgreement(res, recipe, p.model, p.real, []byte(raw), rng, true, seen)
+				}
 			}
 			// the oracles, once per (policy, document)
 			if !agreed[key] {
@@ -613,7 +627,7 @@ func cmdIOFuzz(args []string) int {
 			sess = &SessionResult{Recipe: recipe, Model: BuildAP(recipe), Real: BuildReal(recipe)}
 		}
 		for c := 0; c < *calls; c++ {
-			_, input := GenDoc(rng, sess.Model, []int{0, 1, 3, 4, 5, 6, 8}[rng.Intn(7)])
+			_, input := GenDoc(rng, sess.Model, []int{0, 1, 3, 4, 5, 6, 8, 9, 9}[rng.Intn(9)])
 			res.Cases++
 			if want["C15"] {
 				res.Applicable["C15"]++
